@@ -24,6 +24,9 @@ import (
 const rtSrc = `// Package verifrt is injected by the verification harness (build overlay).
 package verifrt
 
+// Hits records which instrumented statements were executed (statement coverage).
+var Hits [NPOINTS]uint8
+
 // Steps counts executed statements of package rtcp; exceeding Budget panics
 // with BudgetExceeded so that unbounded loops are decided deterministically.
 var (
@@ -38,7 +41,8 @@ type BudgetExceeded struct{}
 func (BudgetExceeded) Error() string { return "verifrt: step budget exceeded" }
 
 // P is called before every statement of package rtcp.
-func P() {
+func P(id int) {
+	Hits[id] = 1
 	Steps++
 	if Steps > Budget {
 		Steps = 0
@@ -50,8 +54,27 @@ func P() {
 }
 `
 
-func call() ast.Stmt {
-	return &ast.ExprStmt{X: &ast.CallExpr{Fun: &ast.SelectorExpr{X: ast.NewIdent("verifrt"), Sel: ast.NewIdent("P")}}}
+type pointInfo struct {
+	ID   int    `json:"id"`
+	File string `json:"file"`
+	Line int    `json:"line"`
+}
+
+var (
+	points  []pointInfo
+	curFset *token.FileSet
+	curFile string
+)
+
+func call(pos token.Pos) ast.Stmt {
+	id := len(points)
+	line := 0
+	if pos.IsValid() {
+		line = curFset.Position(pos).Line
+	}
+	points = append(points, pointInfo{ID: id, File: curFile, Line: line})
+	return &ast.ExprStmt{X: &ast.CallExpr{Fun: &ast.SelectorExpr{X: ast.NewIdent("verifrt"), Sel: ast.NewIdent("P")},
+		Args: []ast.Expr{&ast.BasicLit{Kind: token.INT, Value: fmt.Sprint(id)}}}}
 }
 
 func instrList(list []ast.Stmt) []ast.Stmt {
@@ -63,7 +86,7 @@ func instrList(list []ast.Stmt) []ast.Stmt {
 			out = append(out, s)
 			continue
 		}
-		out = append(out, call())
+		out = append(out, call(s.Pos()))
 		out = append(out, s)
 	}
 	return out
@@ -88,6 +111,7 @@ func main() {
 			continue
 		}
 		fset := token.NewFileSet()
+		curFset, curFile = fset, filepath.Base(f)
 		af, err := parser.ParseFile(fset, f, nil, 0)
 		if err != nil {
 			fmt.Fprintln(os.Stderr, "instr: parse error (the plain build will report it):", err)
@@ -137,7 +161,7 @@ func main() {
 				npoints += len(x.List) + 1
 				x.List = instrList(x.List)
 				if len(x.List) == 0 {
-					x.List = []ast.Stmt{call()}
+					x.List = []ast.Stmt{call(x.Lbrace)}
 				}
 				hasFunc = true
 			case *ast.CaseClause:
@@ -167,7 +191,7 @@ func main() {
 	}
 	// runtime
 	rt := filepath.Join(dst, "verifrt.go")
-	must(os.WriteFile(rt, []byte(rtSrc), 0o644))
+	must(os.WriteFile(rt, []byte(strings.Replace(rtSrc, "NPOINTS", fmt.Sprint(len(points)+1), 1)), 0o644))
 	ovI[filepath.Join(src, "verifrt", "verifrt.go")] = rt
 	// globals accessor
 	sort.Strings(globals)
@@ -193,7 +217,7 @@ func main() {
 		un = append(un, k)
 	}
 	sort.Strings(un)
-	info := map[string]interface{}{"static_points": npoints, "files": len(ovI) - 2, "globals": globals, "unsupported": un}
+	info := map[string]interface{}{"static_points": len(points), "files": len(ovI) - 2, "globals": globals, "unsupported": un, "points": points}
 	b, _ := json.MarshalIndent(info, "", " ")
 	must(os.WriteFile(filepath.Join(dst, "info.json"), b, 0o644))
 }
